@@ -150,7 +150,17 @@ def program(draw, cfg=DEFAULT_CFG, cache_rel='cache.gz'):
                 continue
             if c < qw + cw:
                 if i + 1 < nfun:
-                    stmts.append(call(draw(st.integers(i + 1, nfun - 1))))
+                    cl = call(draw(st.integers(i + 1, nfun - 1)))
+                    if cl[0] == 'bf' and cl[1] != cache_rel and chance(draw, cfg.get('around_p', 0.12)):
+                        # a query of an ancestor directory of the nested target before the call and a query of the target
+                        # itself after it (the record then observes the same paths from both sides of the nested build)
+                        anc = [d for d in ('/'.join(cl[1].split('/')[:k]) for k in range(1, cl[1].count('/') + 1)) if d not in masked]
+                        if anc:
+                            stmts.append(['q', draw(st.sampled_from(['exists', 'is_dir', 'list_dir'])), draw(st.sampled_from(anc)), 'METADATA'])
+                        stmts.append(cl)
+                        stmts.append(['q', draw(st.sampled_from(['get_size', 'is_file', 'exists', 'read_binary', 'declare_read'])), cl[1], draw(cmp_)])
+                    else:
+                        stmts.append(cl)
                 continue
             c = c - qw - cw + 7
             if False:
